@@ -23,34 +23,43 @@ PoolTiny == {<<>>, <<3>>, <<4, 2>>, <<8>>}
 PoolDup == {<<3>>, <<7, 3, 7>>, <<3, 3, 3, 3>>, <<15>>, <<1, 7>>}
 ADup == {4, 6, 9, 13}
 ADup2 == {4, 9}
+PoolTwo == {<<3>>, <<4, 2>>}
+AAlign == {5, 13}
 \* 0..2 words with lengths 1, 3, 7 and a few longer cells (20 cells)
 PoolQuick == SeqsUpTo({1, 3, 7}, 2) \cup {<<3, 3, 3>>, <<1, 7, 1>>, <<7, 1, 3>>, <<1, 1, 1>>, <<7, 7, 7>>, <<3, 1, 7>>, <<15>>}
 
-\* alignments (0 left, 1 right, 2 centred): AlignMode 0 all left; 1 three rotations (every alignment in every
-\* column); 2 every combination
-AlignsOf(n) == IF AlignMode = 2 THEN [1..n -> {0, 1, 2}]
-               ELSE IF AlignMode = 1 THEN {[k \in 1..n |-> (k + s) % 3] : s \in 0..2}
-               ELSE {[k \in 1..n |-> 0]}
+\* alignments are set through TableStyle.set_column_alignment(col, a) (a: 0 left, 1 right, 2 centred); a family
+\* chooses the *sequence of calls*:  AlignMode 0 none (all left); 1 three rotations, columns ascending (every
+\* alignment in every column); 2 every combination, ascending; 3 every order: all sequences of up to two calls
+\* (ascending, descending, the same column twice) and every permutation of the columns with alignments 1/2
+Opts(n) == {<<c, a>> : c \in 0..(n - 1), a \in {1, 2}}
+Perms(n) == {p \in [1..n -> 0..(n - 1)] : \A j, k \in 1..n : j # k => p[j] # p[k]}
+CallSeqs(n) == UNION {[1..m -> Opts(n)] : m \in 0..2}
+               \cup {[k \in 1..n |-> <<p[k], al[k]>>] : p \in Perms(n), al \in [1..n -> {1, 2}]}
+AlignsOf(n) == IF AlignMode = 3 THEN CallSeqs(n)
+               ELSE IF AlignMode = 2 THEN {[k \in 1..n |-> <<k - 1, al[k]>>] : al \in [1..n -> {0, 1, 2}]}
+               ELSE IF AlignMode = 1 THEN {[k \in 1..n |-> <<k - 1, (k + s) % 3>>] : s \in 0..2}
+               ELSE {<<>>}
 
 \* DupMode: cells with the same (non-empty) word lengths carry the identical text - a value repeated in several
 \* rows / columns: the text class is the number of the first such cell
 ClassFor(cells, c) == IF DupMode /\ cells[c] # <<>> THEN CHOOSE d \in 1..c : cells[d] = cells[c] /\ \A e \in 1..(d - 1) : cells[e] # cells[c]
                       ELSE c
-MkInp(n, h, R, st, av, ind, al, cells) ==
+MkInp(n, h, R, st, av, ind, calls, cells) ==
   LET RR == R + (IF h THEN 1 ELSE 0)
-  IN [n |-> n, hdr |-> h, style |-> st, ind |-> ind, al |-> al,
+  IN [n |-> n, hdr |-> h, style |-> st, ind |-> ind, al |-> AlignOf(n, calls), calls |-> calls,
       T |-> av + ind + BorderWidth(st, n) + n * Excess(st),
       rows |-> [r \in 1..RR |-> [k \in 1..n |-> TextFrom(ClassFor(cells, (r - 1) * n + k), cells[(r - 1) * n + k], 1)]]]
 
 Init == \E n \in NColsSet, h \in HdrSet, R \in NRowsSet, st \in StyleSet, av \in AvailSet, ind \in IndSet :
-          \E al \in AlignsOf(n) :
+          \E calls \in AlignsOf(n) :
             \E cells \in [1..((R + (IF h THEN 1 ELSE 0)) * n) -> Pool] :
-               av >= n /\ Start(MkInp(n, h, R, st, av, ind, al, cells))
+               av >= n /\ Start(MkInp(n, h, R, st, av, ind, calls, cells))
 Spec == Init /\ [][Step]_vars
 
 Emit == pc \in {"done", "fail"} =>
   PrintT(ToJson([n |-> inp.n, hdr |-> inp.hdr, rows |-> inp.rows, style |-> inp.style, T |-> inp.T, ind |-> inp.ind,
-                 al |-> inp.al, fail |-> (pc = "fail"), lines |-> out, colLen |-> colLen, ties |-> ties]))
+                 al |-> inp.al, calls |-> inp.calls, fail |-> (pc = "fail"), lines |-> out, colLen |-> colLen, ties |-> ties]))
 
 A2to12 == 1..12
 A1to20 == 1..20
